@@ -48,8 +48,8 @@ func genC19(coop bool) func(t *rapid.T) c19Case {
 		n := rapid.IntRange(c.Stack.Limit+1, c.Stack.Limit+c.Stack.Backlog).Draw(t, "n")
 		one := rapid.Custom(func(t *rapid.T) c19Caller {
 			return c19Caller{
-				AtMs:   rapid.SampledFrom([]int{0, 0, 0, 1, 2, 5, 7, 10, 20}).Draw(t, "at"),
-				HoldMs: rapid.SampledFrom([]int{1, 2, 5, 5, 7, 10, 30}).Draw(t, "hold"),
+				AtMs:     rapid.SampledFrom([]int{0, 0, 0, 1, 2, 5, 7, 10, 20}).Draw(t, "at"),
+				HoldMs:   rapid.SampledFrom([]int{1, 2, 5, 5, 7, 10, 30}).Draw(t, "hold"),
 				Out:      rapid.IntRange(0, 2).Draw(t, "out"),
 				CancelMs: rapid.SampledFrom([]int{-1, -1, -1, -1, -1, -1, 0, 0, 1, 3}).Draw(t, "cancel"),
 			}
